@@ -182,13 +182,17 @@ pub fn converge() {
         assert!(rounds < 4, "exchange does not reach a fixpoint");
     }
     assert!(same_state(&a.m, &b.m), "replicas holding the same committed history expose different states");
-    // plain file copy (reverse listing order) + incremental refreshes, and one full reload
+    // plain file copy (reverse listing order) + incremental refreshes; the copy may stop early, the rest then arrives
+    // by a meld from the complete peer
     let mut c = Rep::new();
     {
         let src = a.ad.read().unwrap();
         let mut files = src.list_objects("").unwrap();
         files.reverse();
         for f in files {
+            if sym::any_bool() {
+                break;
+            }
             c.ad.write().unwrap().write_object(&f, &src.read_object(&f, 0, 0).unwrap()).unwrap();
             if sym::any_bool() {
                 c.m.refresh().expect("refresh c");
@@ -196,7 +200,8 @@ pub fn converge() {
         }
     }
     c.m.refresh().expect("refresh c");
-    assert!(same_state(&c.m, &a.m), "a replica fed by file copy exposes a different state");
+    c.pull(&a);
+    assert!(same_state(&c.m, &a.m), "a replica fed by file copy and meld exposes a different state");
     assert!(same_state(&c.reopen(), &a.m), "a replica opened by one reload exposes a different state");
     sym::reach(1);
 }
